@@ -158,14 +158,17 @@ def replay(r):
 AFTER = ["blank", "url", "nothing", "two_blank", "space_line"]
 
 
-def meme_text(motifs, after, eol, final_nl):
+SEPS = ["  ", "\t", " "]
+
+
+def meme_text(motifs, after, eol, final_nl, sep=0):
     E = "\r\n" if eol == 1 else "\n"
     lines = ["MEME version 4", "", "ALPHABET= ACGT", "", "strands: + -", "", "Background letter frequencies", "A 0.25 C 0.25 G 0.25 T 0.25", ""]
     for m, af in zip(motifs, after):
         lines.append("MOTIF " + m["name"])
         lines.append("letter-probability matrix: alength= 4 w= %d nsites= 20 E= 0" % len(m["rows"]))
         for row in m["rows"]:
-            lines.append("  ".join("%.6f" % v for v in row))
+            lines.append((" " if sep == 2 else "") + SEPS[sep].join("%.6f" % v for v in row))
         k = AFTER[af]
         if k == "blank":
             lines.append("")
@@ -185,7 +188,7 @@ def meme_text(motifs, after, eol, final_nl):
 def make_motifs(widths):
     ms = []
     for i, w in enumerate(widths):
-        rows = [[round(0.1 * ((i + j + c) % 4 + 1), 6) for c in range(4)] for j in range(w)]
+        rows = [[round(0.1 * ((i + j + c) % 4 + 1) + 0.000001 * (c + 3), 6) for c in range(4)] for j in range(w)]      # last digit non-zero: a truncated line is a different number
         ms.append({"name": "M%d_x" % i, "rows": rows})
     return ms
 
@@ -215,12 +218,12 @@ def worker(cfg):
             after = [core.Int("after%d" % i) for i in range(len(motifs))]
             for a_ in after:
                 ctx.assume(s_and(a_ >= 0, a_ < len(AFTER)))
-            eol, fin = core.Int("eol"), core.Int("final_nl")
-            ctx.assume(s_and(eol >= 0, eol <= 1, fin >= 0, fin <= 1))
+            eol, fin, sep = core.Int("eol"), core.Int("final_nl"), core.Int("sep")
+            ctx.assume(s_and(eol >= 0, eol <= 1, fin >= 0, fin <= 1, sep >= 0, sep < len(SEPS)))
             av = [int(a_) for a_ in after]              # the solver enumerates every layout of the grammar
-            ev, fv = int(eol), int(fin)
-            holder["text"] = meme_text(motifs, av, ev, fv)
-            r = dict(cfg, motifs=motifs, text=holder["text"], layout=[AFTER[a_] for a_ in av] + ["CRLF" if ev else "LF", "final_nl" if fv else "no_final_nl"])
+            ev, fv, sv = int(eol), int(fin), int(sep)
+            holder["text"] = meme_text(motifs, av, ev, fv, sv)
+            r = dict(cfg, motifs=motifs, text=holder["text"], layout=[AFTER[a_] for a_ in av] + ["CRLF" if ev else "LF", "final_nl" if fv else "no_final_nl", "sep=%r" % SEPS[sv]])
             try:
                 got = rio.read_meme("sym.meme")
             except Exception as e:
@@ -251,14 +254,26 @@ def worker(cfg):
     # ---- extract_loci
     ld, shims = C.fresh_env()
     rio = ld.load("io")
-    sizes, chroms_of, use_sig, use_insig = cfg["sizes"], cfg["chroms_of"], cfg["signals"], cfg.get("in_signals", False)
+    sizes, chroms_of0, use_sig, use_insig = cfg["sizes"], cfg["chroms_of"], cfg["signals"], cfg.get("in_signals", False)
     DataFrame = shims["pandas"].DataFrame
+    NAMES = sorted(set(sum(chroms_of0, [])))
 
     def body(ctx):
         log = []
+        chroms_of = chroms_of0
+        if cfg.get("sym_chroms"):
+            # the chromosome of every locus is chosen by the solver (each assignment is a path)
+            chroms_of = []
+            for i, n in enumerate(sizes):
+                row = []
+                for j in range(n):
+                    v = core.Int("chrom_%d_%d" % (i, j))
+                    ctx.assume(s_and(v >= 0, v < len(NAMES)))
+                    row.append(NAMES[int(v)])
+                chroms_of.append(row)
         inw, outw, jit = core.Int("in_window"), core.Int("out_window"), core.Int("max_jitter")
         ctx.assume(s_and(inw >= 1, outw >= 1, jit >= 0))
-        clen = {c: core.Int("len_" + c) for c in sorted(set(sum(chroms_of, [])))}
+        clen = {c: core.Int("len_" + c) for c in NAMES}
         for v in clen.values():
             ctx.assume(v >= 1)
         rows = {}
@@ -346,6 +361,11 @@ def worker(cfg):
             cl.append(len(kept) <= n_loci)
         m = ctx.prove(s_and(*cl), "kept loci: exact centred windows inside the chromosome, input order")
         if m is not None:
+            # prefer a counterexample whose loci are pairwise distinguishable on a real genome (distinct, well separated mid-points)
+            mids = [rows[rc][1] + (rows[rc][2] - rows[rc][1]) // 2 for rc in sorted(rows)]
+            apart = [s_or(mids[i_] - mids[j_] >= 3, mids[j_] - mids[i_] >= 3) for i_ in range(len(mids)) for j_ in range(i_)]
+            if ctx.check(s_not(s_and(*cl)), s_and(inw <= 12, jit <= 3, outw <= 12, *apart)) == z3.sat:
+                m = ctx.model()
             add("extract_loci:wrong-window-or-order", "a kept locus was read with a window other than the centred in/out window (+jitter), outside its chromosome, or out of order", rp(m))
             return "returned"
         # dropped loci: only for an allowed reason
@@ -406,9 +426,12 @@ def configs(tier):
     cf.append(dict(kind="loci", sizes=[3], chroms_of=[["c1", "c1", "c1"]], signals=False, n_loci=True))
     cf.append(dict(kind="loci", sizes=[2, 1], chroms_of=[["c1", "c1"], ["c2"]], signals=False))
     cf.append(dict(kind="loci", sizes=[2, 2], chroms_of=[["c1", "c2"], ["c2", "c1"]], signals=False, chroms=["c1"]))
+    cf.append(dict(kind="loci", sizes=[2, 2], chroms_of=[["c1", "c2"], ["c2", "c1"]], signals=False, chroms=["c1"], sym_chroms=True))
     if not q:
         cf.append(dict(kind="loci", sizes=[1, 3, 2], chroms_of=[["c1"], ["c1", "c2", "c1"], ["c2", "c2"]], signals=False))
         cf.append(dict(kind="loci", sizes=[3], chroms_of=[["c1", "c2", "c1"]], signals=True, counts=True, n_loci=True))
+        cf.append(dict(kind="loci", sizes=[3, 2], chroms_of=[["c1", "c2", "c1"], ["c2", "c1"]], signals=False, chroms=["c2"], sym_chroms=True))
+        cf.append(dict(kind="loci", sizes=[2, 1, 2], chroms_of=[["c1", "c2"], ["c2"], ["c1", "c1"]], signals=True, chroms=["c1"], sym_chroms=True))
         cf.append(dict(kind="loci", sizes=[2, 2, 1, 1], chroms_of=[["c1", "c1"], ["c1", "c1"], ["c1"], ["c1"]], signals=False))
     return cf
 
@@ -419,7 +442,7 @@ def main(tier, seed):
     rep.functions = [ld.func_info("io", f) for f in ("extract_loci", "_interleave_loci", "_load_signals", "_extract_locus_signal", "read_meme")]
     cf = configs(tier)
     rep.bounds = {"loci": "coordinates, chromosome lengths, in_window, out_window, max_jitter, n_loci, min/max_counts: unbounded symbolic; locus-set sizes %s" % [c["sizes"] for c in cf if c["kind"] == "loci"],
-                  "meme": "motif widths %s x every layout in {blank, URL+blank, nothing, two blanks, whitespace line} after each matrix x {LF, CRLF} x {final newline or not}" % [c["widths"] for c in cf if c["kind"] == "meme"]}
+                  "meme": "motif widths %s x every layout in {blank, URL+blank, nothing, two blanks, whitespace line} after each matrix x {LF, CRLF} x {final newline or not} x {two spaces, tab, one space with leading space} between 6-decimal numbers" % [c["widths"] for c in cf if c["kind"] == "meme"]}
     rep.assumptions = ["genome and signals are in-memory dictionaries modelled as recorders with the contract: slice [start, end) returns exactly that range when 0 <= start <= end <= length",
                        "pandas replaced by a minimal DataFrame model (iloc, column get/set, boolean row mask, concat, set_index/sort_index/reset_index, values)",
                        "pyfaidx / pyBigWig / CSV parsing themselves (hence file-vs-memory equivalence) and float() parsing are outside the claim",
